@@ -104,6 +104,28 @@ theorem second_top_level_entry_reparented :
       (fun o => o.entries.map Created.shape)) = some [(1, 0, 0x2e)] := by
   decide
 
+/-! ## (c) idempotence, structural part -/
+
+/-- **A second conversion creates the same entries again.** Let `f` be the input forest and `f'`
+the forest a reader finds in the written output of the first conversion; `f'` has the shape of
+`f` (that is `convert_forest_partial` for the conversion, C11's `offsets_exact` and read-back
+oracle for write + read: same (id, parent, tag) listing — ids are positions in both).  Then
+converting `f'` makes exactly the `add_reserved` calls the first conversion made: the forest is a
+fixed point from the first output on.  (Attribute-level idempotence — `convert(read(write(v)))
+= v` for every value kind — needs a Model of re-reading a converted value under an arbitrary
+attribute name and is established by the differential run only: `c12-dwarf` converts twice and
+compares the outputs byte for byte.) -/
+theorem convert_forest_idempotent (cx cx' : ConvUnit.Ctx) (ids ids' : Nat → Option Nat) (root root' : RItem)
+    (f f' : IForest) (out out' : OutUnit)
+    (hwf : f.WF) (hid : f.HasIds ids) (hroot : root.depth = 0) (hch : root.children = false → f = .nil)
+    (hwf' : f'.WF) (hid' : f'.HasIds ids') (hroot' : root'.depth = 0) (hch' : root'.children = false → f' = .nil)
+    (hsame : f'.flatten 0 = f.flatten 0)
+    (h : convertUnit cx ids (root :: f.items 1) = .ok out)
+    (h' : convertUnit cx' ids' (root' :: f'.items 1) = .ok out') :
+    out'.entries.map Created.shape = out.entries.map Created.shape := by
+  rw [convert_forest_partial cx ids root f out hwf hid hroot hch h,
+    convert_forest_partial cx' ids' root' f' out' hwf' hid' hroot' hch' h', hsame]
+
 /-! ## (b) the attributes -/
 
 /-- **What is dropped on purpose, exactly.** `filter_attributes` keeps an attribute iff its name
@@ -313,37 +335,51 @@ def expectedFormVal (form : Form) (v : Value) : Option FormVal :=
   | .encoding, .num x | .decimalSign, .num x | .endianity, .num x | .accessibility, .num x
   | .visibility, .num x | .virtuality, .num x | .language, .num x | .addressClass, .num x
   | .identifierCase, .num x | .callingConvention, .num x | .inline, .num x | .ordering, .num x => some (.num x)
+  | .sdata, .int x => some (.int x)
   | .flag, .flag b => some (.num (if form = .flagPresent then 1 else if b then 1 else 0))
   | _, _ => none
 
 theorem decoded_direct (wcx : WUnit.Ctx) (form : Form) (v : Value) (w : AttrVal) (fv : FormVal)
-    (hd : directOut form v = some w) (he : expectedFormVal form v = some fv) : decoded wcx w = some fv := by
+    (hd : directOut form v = some w) (he : expectedFormVal form v = some fv) : decodedFull wcx w = some fv := by
   obtain ⟨k, p⟩ := v
   cases k <;> cases p <;> simp only [directOut, Option.some.injEq, reduceCtorEq] at hd <;>
     simp only [expectedFormVal, Option.some.injEq, reduceCtorEq] at he <;> subst hd he
-  all_goals first | rfl | (by_cases hf : form = Form.flagPresent <;> simp [hf, decoded])
+  all_goals first | rfl | (by_cases hf : form = Form.flagPresent <;> simp [hf, decodedFull, decoded])
 
-/-- **Convert, write, read back: the reader gets the input's own payload** — for the kinds the
-conversion carries over directly (constants of every width, blocks, inline strings, flags,
-signatures, supplementary and macro offsets, the enumeration classes), under every encoding: the
-bytes `AttributeValue::write` emits for the converted value, read with the primitive readers of
-the form `AttributeValue::form` chose (`WUnit.readForm`, C09 readers — C11
-`attr_bytes_decode_partial`), give back exactly the payload the input attribute had, and consume
-exactly those bytes.  Partial: signed constants (`Sdata`, `DW_FORM_implicit_const`) are outside
-C11's decode theorem; references, strings in tables and addresses are covered by
-`convert_attr_meaning_ref/string/address` and C11's `unit_refs_resolve` / `fixups_resolve` /
-`string_offset_resolves`. -/
-theorem convert_write_read_partial (cx : ConvUnit.Ctx) (wcx : WUnit.Ctx) (a : RAttr) (w : AttrVal) (fv : FormVal)
+/-- **Convert, write, read back: the reader gets the input's own payload** — for every kind the
+conversion carries over directly (constants of every width *and sign*, blocks, inline strings,
+flags, signatures, supplementary and macro offsets, the enumeration classes), under every
+encoding: the bytes `AttributeValue::write` emits for the converted value, read with the primitive
+readers of the form `AttributeValue::form` chose (`WUnit.readFormFull`: the C09 readers incl.
+`Leb.signed` — C11 `attr_bytes_decode`), give back exactly the payload the input attribute had,
+and consume exactly those bytes.  (References, strings in tables and addresses: the value is an
+id or a relocated address, see `convert_attr_meaning_ref/string/address` and C11's
+`unit_refs_resolve` / `fixups_resolve` / `string_offset_resolves`.) -/
+theorem convert_attr_write_read (cx : ConvUnit.Ctx) (wcx : WUnit.Ctx) (a : RAttr) (w : AttrVal) (fv : FormVal)
     (pos : Nat) (em : Emit) (rest : Bytes) (hf : a.form ≠ .implicitConst)
     (hd : directOut a.form (normalise a.name a.raw) = some w)
     (he : expectedFormVal a.form (normalise a.name a.raw) = some fv)
-    (hr : w.InRange) (hemit : attrEmit wcx pos w = .ok em)
+    (hr : w.InRangeFull wcx) (hemit : attrEmit wcx pos w = .ok em)
     (hso : ∀ o ∈ wcx.strOffsets, o < 2 ^ 64) (hlo : ∀ o ∈ wcx.lineStrOffsets, o < 2 ^ 64)
     (hlp : ∀ o, wcx.lineProgram = some o → o < 2 ^ 64) :
     convertValue cx a = .ok w ∧
-      readForm wcx.endian wcx.enc (attrForm wcx.enc w).1 (em.bytes ++ rest) = .ok (fv, rest) :=
+      readFormFull wcx.endian wcx.enc (attrForm wcx.enc w).1 (attrForm wcx.enc w).2 (em.bytes ++ rest) =
+        .ok (fv, rest) :=
   ⟨convert_attr_meaning_direct cx a w hf hd,
-   attr_bytes_decode' wcx pos w em fv rest hemit hr (decoded_direct wcx a.form _ w fv hd he) hso hlo hlp⟩
+   attr_bytes_decode_full wcx pos w em fv rest hemit hr (decoded_direct wcx a.form _ w fv hd he) hso hlo hlp⟩
+
+/-- the same for `DW_FORM_implicit_const`: the constant of the input abbreviation comes back —
+from the output abbreviation in DWARF 5, as a signed LEB128 in the entry before -/
+theorem convert_implicit_write_read (cx : ConvUnit.Ctx) (wcx : WUnit.Ctx) (a : RAttr) (v : Int)
+    (pos : Nat) (em : Emit) (rest : Bytes) (hf : a.form = .implicitConst) (hraw : a.raw = ⟨.sdata, .int v⟩)
+    (hlo : -(2 : Int) ^ 63 ≤ v) (hhi : v < 2 ^ 63) (hemit : attrEmit wcx pos (.implicitConst v) = .ok em)
+    (hso : ∀ o ∈ wcx.strOffsets, o < 2 ^ 64) (hlo' : ∀ o ∈ wcx.lineStrOffsets, o < 2 ^ 64)
+    (hlp : ∀ o, wcx.lineProgram = some o → o < 2 ^ 64) :
+    convertValue cx a = .ok (.implicitConst v) ∧
+      readFormFull wcx.endian wcx.enc (attrForm wcx.enc (.implicitConst v)).1 (attrForm wcx.enc (.implicitConst v)).2
+        (em.bytes ++ rest) = .ok (.int v, rest) :=
+  ⟨convert_attr_meaning_implicit cx a hf v hraw,
+   attr_bytes_decode_full wcx pos _ em _ rest hemit ⟨trivial, hlo, hhi⟩ rfl hso hlo' hlp⟩
 
 /-! ## (d) totality, and failing only for a reason -/
 
@@ -382,6 +418,7 @@ example : exForest.HasIds (fun off => if 21 ≤ off ∧ off ≤ 23 then some (of
   simp [exForest, IForest.HasIds]
 
 example : directOut .data4 ⟨.data4, .num 7⟩ = some (.data4 7) ∧
-    expectedFormVal .data4 ⟨.data4, .num 7⟩ = some (.num 7) ∧ (AttrVal.data4 7).InRange := by decide
+    expectedFormVal .data4 ⟨.data4, .num 7⟩ = some (.num 7) ∧ (AttrVal.data4 7).InRange ∧
+    expectedFormVal .sdata ⟨.sdata, .int (-3)⟩ = some (.int (-3)) := by decide
 
 end Gimli.Props.C12
